@@ -112,3 +112,15 @@ Theorem C01_specification_is_semantic :
   forall ops st, run_ops (spec_scanner tbl1 ms1) st ops = run_ops (spec_scanner tbl2 ms2) st ops.
 Proof. exact spec_scanner_ext. Qed.
 Print Assumptions C01_specification_is_semantic.
+
+(* non-vacuity of the top theorem's hypotheses on a concrete configuration with a shared leaf
+   (a, b, a, b registered as two classes) and a positive lookahead *)
+Theorem C01_from_source_nonvacuous :
+  (forall a b, N.eqb a b = true -> forall c, N.eqb a c = N.eqb b c)
+  /\ assign N N.eqb [] ex_occ = ([0; 1; 0; 1], [97; 98]%N)
+  /\ (forall m, In m ex_l0 -> forall p, In p (s_pats m) -> pat_leaves_ok N ex_occ p)
+  /\ (exists sms0, spec_of_scanner ex_l0 = Some sms0)
+  /\ (exists cms, build_scanner (map (relabel_mode (id_of [0; 1; 0; 1])) ex_l0) = Some cms)
+  /\ (forall m, In m (map (relabel_mode (id_of [0; 1; 0; 1])) ex_l0) -> mode_valid m).
+Proof. exact ex_from_source. Qed.
+Print Assumptions C01_from_source_nonvacuous.
